@@ -105,10 +105,28 @@ type KeyStore struct {
 	Hashes map[string][]byte // user name -> bcrypt hash
 	Fail   map[string]bool   // user name -> keychain error
 	Calls  int
+	// Slow: user name -> how long the keychain takes to answer (a remote keychain under load)
+	Slow map[string]time.Duration
+}
+
+// SetSlow makes the keychain slow (or fast again, d == 0) for one user.
+func (k *KeyStore) SetSlow(name string, d time.Duration) {
+	k.mu.Lock()
+	if k.Slow == nil {
+		k.Slow = map[string]time.Duration{}
+	}
+	k.Slow[name] = d
+	k.mu.Unlock()
 }
 
 // GetSecret implements bcrypt's getSecret.
 func (k *KeyStore) GetSecret(ctx context.Context, name, group string) ([]byte, error) {
+	k.mu.Lock()
+	d := k.Slow[name]
+	k.mu.Unlock()
+	if d > 0 {
+		time.Sleep(d)
+	}
 	k.mu.Lock()
 	defer k.mu.Unlock()
 	k.Calls++
